@@ -5,8 +5,9 @@ import BufModel.Bucket
   plus the directories that exist.  Unlike the abstract map, a tree cannot hold a file and a
   directory under one name, `Put` fails below a file or onto a directory, `Delete` of a
   non-empty directory fails and `Delete` of an empty leftover directory succeeds.  Property C14
-  quantifies over prefix-free path sets; the theorem in Props/C14 shows that on such histories
-  the tree behaves exactly like the memory bucket.  Symlinks are not modelled.
+  quantifies over prefix-free path sets; `BufProofs.C14.disk_refines_map` (Props/C14.lean) proves that on such
+  histories the tree gives exactly the outputs of the memory bucket and holds the same objects.
+  Symlinks are not modelled.
 -/
 namespace BufModel.Disk
 open BufModel.Path BufModel.Bucket
@@ -87,40 +88,122 @@ def diskDeleteAll (d : Disk) (pfx : Str) : Except PErr Disk :=
 def diskWalk (d : Disk) (pfx : Str) : Except PErr (List (Str × Content)) :=
   if underFile d.files pfx then .error .other else memWalk d.files pfx
 
-/-- `rWalk` where some base buckets are disk buckets (`flags[i] = true`). -/
-def rWalkD (flags : List Bool) : BExpr → Bases → Str → Except PErr (List (Str × Content))
+/-! ### The walk of a composite as the implementation performs it: STREAMING
+
+  Every bucket's `Walk` hands each object to its caller's callback as it is visited; an error
+  — a failing delegate, or the union's duplicate check inside the callback — stops the walk at
+  that moment.  Which error is reported therefore depends on the visiting order: in
+  `multi(x, multi(y, z))` a path of `y` already seen in `x` is reported as "multiple locations"
+  before `z` is ever walked, even if walking `z` would fail (ENOTDIR on a disk bucket).
+  `rWalk` (BufModel/Bucket.lean) evaluates members one after the other as whole lists, which
+  gives the same RESULT whenever the walk succeeds (`rWalkD_ok`, `rWalkD_of_rWalk_ok` in
+  DiskLemmas) but not always the same error class when two different errors compete — which
+  needs a disk base.  `rWalkD` is the streaming walk: it returns the objects visited before
+  the walk stopped, and the error that stopped it (`none` = completed). -/
+
+abbrev WalkRes := List (Str × Content) × Option PErr
+
+/-- the prefix view's callback: objects are unmapped as they are visited -/
+def unmapPartial (p : Str) : List (Str × Content) → WalkRes
+  | [] => ([], none)
+  | kv :: rest =>
+    match unmapPrefix p kv.1 with
+    | .error e => ([], some e)
+    | .ok none => unmapPartial p rest
+    | .ok (some r) =>
+      let res := unmapPartial p rest
+      ((r, kv.2) :: res.1, res.2)
+
+/-- the union's callback on its second member: a path already seen stops the walk -/
+def mergePartial (seen : List (Str × Content)) : List (Str × Content) → WalkRes
+  | [] => ([], none)
+  | kv :: rest =>
+    if hasKey seen kv.1 then ([], some .multiple)
+    else
+      let res := mergePartial seen rest
+      (kv :: res.1, res.2)
+
+/-- The streaming walk; `flags[i] = true` marks base `i` as a disk bucket (a prefix BELOW a
+    regular file is ENOTDIR there, reported before anything is visited). -/
+def rWalkD (flags : List Bool) : BExpr → Bases → Str → WalkRes
   | .base i, bs, pfx =>
-    if flags.getD i false && underFile (bs.get i) pfx then .error .other else memWalk (bs.get i) pfx
+    if flags.getD i false && underFile (bs.get i) pfx then ([], some .other)
+    else match memWalk (bs.get i) pfx with
+      | .ok l => (l, none)
+      | .error e => ([], some e)
   | .pre p b, bs, pfx =>
     match normalizeAndValidate pfx with
-    | .error e => .error e
+    | .error e => ([], some e)
     | .ok q =>
-      match rWalkD flags b bs (join [p, q]) with
-      | .error e => .error e
-      | .ok objs => unmapAll p objs
+      let inner := rWalkD flags b bs (join [p, q])
+      let res := unmapPartial p inner.1
+      -- an unmap failure on a visited object comes before the delegate's own later failure
+      (res.1, match res.2 with | some ue => some ue | none => inner.2)
   | .filt f b, bs, pfx =>
     match normalizeAndValidate pfx with
-    | .error e => .error e
+    | .error e => ([], some e)
     | .ok q =>
-      match rWalkD flags b bs q with
-      | .error e => .error e
-      | .ok objs => .ok (objs.filter fun kv => f.matches kv.1)
+      let inner := rWalkD flags b bs q
+      (inner.1.filter fun kv => f.matches kv.1, inner.2)
   | .multi a b, bs, pfx =>
-    match rWalkD flags a bs pfx with
-    | .error e => .error e
-    | .ok oa =>
-      match rWalkD flags b bs pfx with
-      | .error e => .error e
-      | .ok ob =>
-        match mergeMulti oa ob with
-        | .error e => .error e
-        | .ok ob' => .ok (oa ++ ob')
+    let ra := rWalkD flags a bs pfx
+    match ra.2 with
+    | some ea => (ra.1, some ea)
+    | none =>
+      let rb := rWalkD flags b bs pfx
+      let res := mergePartial ra.1 rb.1
+      -- a duplicate among the objects the second member visited comes before its later failure
+      (ra.1 ++ res.1, match res.2 with | some em => some em | none => rb.2)
   | .overlay a b, bs, pfx =>
-    match rWalkD flags a bs pfx with
+    let ra := rWalkD flags a bs pfx
+    match ra.2 with
+    | some ea => (ra.1, some ea)
+    | none =>
+      let rb := rWalkD flags b bs pfx
+      (ra.1 ++ rb.1.filter fun kv => !hasKey ra.1 kv.1, rb.2)
+  | .strip b, bs, pfx => rWalkD flags b bs pfx
+
+/-! ### A base bucket of either kind (what the C14 driver steps) -/
+
+/-- Put on a base bucket: the tree for a disk base, the plain map (`files`) for a memory base. -/
+def basePut (isDisk : Bool) (d : Disk) (path : Str) (c : Content) : Except PErr Disk :=
+  if isDisk then diskPut d path c
+  else match memPut d.files path c with
+    | .ok m' => .ok { d with files := m' }
+    | .error er => .error er
+
+def baseDelete (isDisk : Bool) (d : Disk) (path : Str) : Except PErr Disk :=
+  if isDisk then diskDelete d path
+  else match memDelete d.files path with
+    | .ok m' => .ok { d with files := m' }
+    | .error er => .error er
+
+def baseDeleteAll (isDisk : Bool) (d : Disk) (pfx : Str) : Except PErr Disk :=
+  if isDisk then diskDeleteAll d pfx
+  else match memDeleteAll d.files pfx with
+    | .ok m' => .ok { d with files := m' }
+    | .error er => .error er
+
+/-- `putAll` onto a base bucket of either kind. -/
+def putAllD (isDisk : Bool) : Disk → List (Str × Content) → Except PErr Disk
+  | d, [] => .ok d
+  | d, kv :: rest =>
+    match basePut isDisk d kv.1 kv.2 with
     | .error e => .error e
-    | .ok oa =>
-      match rWalkD flags b bs pfx with
-      | .error e => .error e
-      | .ok ob => .ok (oa ++ ob.filter fun kv => !hasKey oa kv.1)
+    | .ok d' => putAllD isDisk d' rest
+
+/-- `storage.Copy` (and the net effect of Tar→Untar, Zip→Unzip) as coded, onto a base of either
+    kind: list the paths by walking, read each back with `Get`, put it under the same path. -/
+def copyD (flags : List Bool) (e : BExpr) (bs : Bases) (isDisk : Bool) (d0 : Disk) :
+    Except PErr (Nat × Disk) :=
+  match rWalkD flags e bs [] with
+  | (_, some er) => .error er
+  | (paths, none) =>
+    match readObjects e bs paths with
+    | .error er => .error er
+    | .ok objs =>
+      match putAllD isDisk d0 objs with
+      | .error er => .error er
+      | .ok d' => .ok (objs.length, d')
 
 end BufModel.Disk
